@@ -1553,7 +1553,7 @@ End HandlerCase.
 
 Lemma sim_h_nil sg : sim_h HNil sg [] OExc sg.
 Proof. intros st g N E Hi Hw HE HL He HP HK. split; [constructor|]. split; auto. Qed.
-Lemma sim_h_match hastg tl te hb rest sg t o s2 :
+Lemma sim_h_match (hastg : bool) tl te hb rest (sg : state) t o s2 :
   sim_stmt hb (if hastg then upd sg te true else sg) t o s2 ->
   sim_h (HCons hastg tl te hb rest) sg t o s2.
 Proof. intros IH st g N E Hi Hw HE HL He HP HK. eapply hc_match; eauto. Qed.
@@ -1573,5 +1573,262 @@ Proof.
     + apply hc_I6; auto.
     + apply hc_E2_lt; auto.
     + apply hc_lenE2; auto.
-    + eapply hc_next; eauto. rewrite hc_final. exact He.
+    + eapply hc_next; eauto.
 Qed.
+
+(* ------------------------------------------------------------------ try / except / else *)
+Section TryCase.
+  Variables (body : stmt) (hasel : bool) (el : stmt) (hs : handlers) (st g : bst) (sg : state).
+  Hypothesis Hi : inv st.
+  Hypothesis Hw : wf (inl st) (Try body hasel el hs) = true.
+  Hypothesis He : ext (visit true (Try body hasel el hs) st) g.
+  Hypothesis HA : at_cur g st sg.
+  Hypothesis HK : Kexc g (excs st) sg.
+
+  Local Definition TN := nb st.
+  Local Definition TE := S (S (nb st)).
+  Local Definition T1 := newblock st.
+  Local Definition T3 := newblock (newblock T1).
+  Local Definition T5 := nextblock (push_exc (mk_excd TE None) T3).
+  Local Definition T6 := nextblock (link_cur TE T5).
+  Local Definition T7v := visit true body T6.
+  Local Definition T7 := pop_exc T7v.
+  Local Definition T8 := match cur T7 with
+                         | None => T7
+                         | Some _ => link_cur TN (if hasel then visit true el (nextblock T7) else T7) end.
+  Local Definition T9r := visit_h true hs TN TE T8.
+  Local Definition T10 := match excs (snd T9r) with
+                          | x :: _ => add_edge (fst T9r) (x_entry x) (snd T9r)
+                          | [] => snd T9r end.
+
+  Lemma tr_final : visit true (Try body hasel el hs) st = cur_if_parents TN T10.
+  Proof.
+    unfold T10, T9r, T8, T7, T7v, T6, T5, T3, T1, TE, TN. simpl.
+    match goal with |- (let '(_, _) := ?v in _) = _ => destruct v end. reflexivity.
+  Qed.
+
+  Lemma tr_I1 : inv T1. Proof. apply (R_inv 0 st). unfold T1. apply R_newblock, R0, Hi. Qed.
+  Lemma tr_R13 n : n <= nb T1 -> R n T1 T3.
+  Proof. intros. apply R_from; [intros Z HZ; unfold T3; RV|exact tr_I1|auto]. Qed.
+  Lemma tr_I3 : inv T3. Proof. exact (R_inv _ _ _ (tr_R13 0 ltac:(lia))). Qed.
+  Lemma tr_nb3 : nb T3 = S TE. Proof. reflexivity. Qed.
+  Lemma tr_R35 n : n <= nb T3 -> R n T3 T5.
+  Proof. intros. apply R_from; [intros Z HZ; unfold T5; apply R_nextblock, R_push_exc, HZ|exact tr_I3|auto]. Qed.
+  Lemma tr_I5 : inv T5. Proof. exact (R_inv _ _ _ (tr_R35 0 ltac:(lia))). Qed.
+  Lemma tr_nb5 : nb T5 = S (nb T3). Proof. unfold T5. rewrite nb_nextblock. reflexivity. Qed.
+  Lemma tr_R56 n : n <= nb T5 -> R n T5 T6.
+  Proof. intros. apply R_from; [intros Z HZ; unfold T6; RV|exact tr_I5|auto]. Qed.
+  Lemma tr_I6 : inv T6. Proof. exact (R_inv _ _ _ (tr_R56 0 ltac:(lia))). Qed.
+  Lemma tr_nb6 : nb T5 <= nb T6. Proof. apply (R_nb 0 T5 T6), tr_R56. lia. Qed.
+  Lemma tr_R67 n : n <= nb T6 -> R n T6 T7.
+  Proof. intros. apply R_from; [intros Z HZ; unfold T7, T7v; RV|exact tr_I6|auto]. Qed.
+  Lemma tr_I7 : inv T7. Proof. exact (R_inv _ _ _ (tr_R67 0 ltac:(lia))). Qed.
+  Lemma tr_nb7 : nb T6 <= nb T7. Proof. apply (R_nb 0 T6 T7), tr_R67. lia. Qed.
+  Lemma tr_R78 n : n <= nb T7 -> R n T7 T8.
+  Proof. intros. apply R_from; [intros Z HZ; unfold T8; destruct (cur T7); [destruct hasel|]; RV|exact tr_I7|auto]. Qed.
+  Lemma tr_I8 : inv T8. Proof. exact (R_inv _ _ _ (tr_R78 0 ltac:(lia))). Qed.
+  Lemma tr_nb8 : nb T7 <= nb T8. Proof. apply (R_nb 0 T7 T8), tr_R78. lia. Qed.
+  Lemma tr_TE_lt : TE < nb T8.
+  Proof. pose proof tr_nb3. pose proof tr_nb5. pose proof tr_nb6. pose proof tr_nb7. pose proof tr_nb8. lia. Qed.
+  Lemma tr_R89 n : n <= TE -> n <= nb T8 -> R n T8 (snd T9r) /\ fst T9r < nb (snd T9r).
+  Proof.
+    intros H1 H2. destruct (visit_h_R hs n T8 T8 TN TE H1 tr_TE_lt (R_refl _ _ tr_I8 H2)) as (A & _ & B').
+    split; auto.
+  Qed.
+  Lemma tr_I9 : inv (snd T9r). Proof. exact (R_inv _ _ _ (proj1 (tr_R89 0 ltac:(lia) ltac:(lia)))). Qed.
+  Lemma tr_R910 n : n <= nb (snd T9r) -> R n (snd T9r) T10.
+  Proof. intros. apply R_from; [intros Z HZ; unfold T10; destruct (excs (snd T9r)); RV|exact tr_I9|auto]. Qed.
+  Lemma tr_I10 : inv T10. Proof. exact (R_inv _ _ _ (tr_R910 0 ltac:(lia))). Qed.
+
+  Lemma tr_E10 : ext T10 g.
+  Proof. rewrite tr_final in He. eapply ext_trans; [|exact He]. split; [exists []; reflexivity|apply incl_refl]. Qed.
+  Lemma tr_E9 : ext (snd T9r) g. Proof. eapply ext_back; [apply (tr_R910 0); lia|apply tr_E10]. Qed.
+  Lemma tr_E8 : ext T8 g. Proof. eapply ext_back; [apply (tr_R89 0); lia|apply tr_E9]. Qed.
+  Lemma tr_E7 : ext T7 g. Proof. eapply ext_back; [apply (tr_R78 0); lia|apply tr_E8]. Qed.
+  Lemma tr_E7v : ext T7v g. Proof. exact tr_E7. Qed.
+  Lemma tr_E6 : ext T6 g. Proof. eapply ext_back; [apply (tr_R67 0); lia|apply tr_E7]. Qed.
+  Lemma tr_E5 : ext T5 g. Proof. eapply ext_back; [apply (tr_R56 0); lia|apply tr_E6]. Qed.
+
+  Lemma tr_incl_8F : incl (eds T8) (eds T10).
+  Proof. apply ext_edges. eapply ext_trans; [apply (R_ext 0), tr_R89; lia|apply (R_ext 0), tr_R910; lia]. Qed.
+
+  Lemma tr_cur_ne : cur st <> Some TN.
+  Proof. destruct HA as (b & Hc & _). rewrite Hc. intros Q. inversion Q.
+    pose proof (inv_cur_lt _ _ Hi Hc). unfold TN in *. lia. Qed.
+
+  Lemma tr_lenN : len T10 TN = 0.
+  Proof.
+    pose proof tr_nb3. pose proof tr_nb5. pose proof tr_nb6. pose proof tr_nb7. pose proof tr_nb8.
+    assert (HR : R (S TN) T1 T10).
+    { eapply R_trans; [apply tr_R13; simpl; unfold TN; lia|]. eapply R_trans; [apply tr_R35; unfold TE, TN in *; lia|].
+      eapply R_trans; [apply tr_R56; unfold TE, TN in *; lia|]. eapply R_trans; [apply tr_R67; unfold TE, TN in *; lia|].
+      eapply R_trans; [apply tr_R78; unfold TE, TN in *; lia|].
+      eapply R_trans; [apply tr_R89; unfold TE, TN in *; lia|].
+      apply tr_R910. pose proof (R_nb _ _ _ (proj1 (tr_R89 0 ltac:(lia) ltac:(lia)))). unfold TE, TN in *. lia. }
+    rewrite (len_frame _ _ _ TN HR); [|lia|exact tr_cur_ne].
+    change (len T1 TN) with (len st TN). apply len_fresh; auto.
+  Qed.
+
+  Lemma tr_lenE : len T8 TE = 0.
+  Proof.
+    pose proof tr_nb3. pose proof tr_nb5. pose proof tr_nb6. pose proof tr_nb7.
+    assert (HR : R (S TE) T3 T8).
+    { eapply R_trans; [apply tr_R35; lia|]. eapply R_trans; [apply tr_R56; lia|].
+      eapply R_trans; [apply tr_R67; lia|apply tr_R78; lia]. }
+    rewrite (len_frame _ _ _ TE HR); [|lia|].
+    - change (len T3 TE) with (len st TE). apply len_fresh; auto. unfold TE. lia.
+    - change (cur T3) with (cur st). destruct HA as (b & Hc & _). rewrite Hc. intros Q. inversion Q.
+      pose proof (inv_cur_lt _ _ Hi Hc). unfold TE in *. lia.
+  Qed.
+
+  Lemma tr_ceq6 : loops T6 = loops st /\ excs T6 = mk_excd TE None :: excs st.
+  Proof.
+    assert (H : ceq (push_exc (mk_excd TE None) T3) T6) by (unfold T6, T5; ceq_auto).
+    destruct H as [A B']. rewrite A, B'. split; reflexivity.
+  Qed.
+  Lemma tr_ceq7 : ceq st T7.
+  Proof.
+    destruct tr_ceq6 as [A B']. destruct (proj1 (visit_ceq true) body T6) as [A2 B2]. fold T7v in A2, B2.
+    unfold T7. split; simpl; [congruence|rewrite B2, B'; reflexivity].
+  Qed.
+  Lemma tr_ceq8 : ceq st T8.
+  Proof.
+    unfold T8. destruct (cur T7); [|apply tr_ceq7]. destruct hasel; ceq_auto; apply tr_ceq7.
+  Qed.
+  Lemma tr_ceq9 : ceq st (snd T9r).
+  Proof. eapply ceq_trans; [apply tr_ceq8|apply visit_h_ceq]. Qed.
+
+  (* whatever reaches the handler entry also reaches the enclosing handler *)
+  Lemma tr_outer s1 : P g TE 0 s1 -> Kexc g (excs st) s1.
+  Proof.
+    intros HP. destruct (hwalk g hs T8 TN TE s1 tr_I8 tr_TE_lt tr_lenE tr_E9 HP) as [PE' LE'].
+    fold T9r in PE', LE'. destruct tr_ceq9 as [_ CE]. pose proof tr_E10 as E10. unfold T10 in E10.
+    rewrite CE in E10. destruct (excs st) as [|x r]; simpl; auto.
+    eapply (add_edge_sound g (snd T9r)); [exact E10|]. now rewrite LE'.
+  Qed.
+
+  Lemma tr_enter : at_cur g T6 sg /\ P g TE 0 sg.
+  Proof.
+    assert (A5 : at_cur g T5 sg).
+    { apply at_cur_nextblock; [exact (R_inv 0 T3 _ (R_push_exc _ _ _ _ (R0 _ tr_I3)))|apply tr_E5|exact HA]. }
+    set (Y := link_cur TE T5).
+    assert (RY : R 0 T5 Y) by (apply R_link_cur, R0, tr_I5).
+    assert (EY : ext Y g) by (eapply ext_back; [|apply tr_E6]; apply R_nextblock, R0, (R_inv _ _ _ RY)).
+    destruct (link_cur_sound g T5 TE sg EY A5) as [PE _]. split; auto.
+    apply at_cur_nextblock; [exact (R_inv _ _ _ RY)|apply tr_E6|].
+    destruct A5 as (b & Hc & HP). exists b. unfold Y, link_cur. rewrite Hc. split; auto.
+  Qed.
+
+  Lemma tr_body t1 o1 s1 : sim_stmt body sg t1 o1 s1 ->
+    Forall (justified g) t1 /\ post g T6 T7v o1 s1 /\ P g TE 0 s1 /\ Kexc g (excs st) s1.
+  Proof.
+    intros IH. destruct tr_enter as [A6 PE]. destruct tr_ceq6 as [CL CE].
+    assert (Hw6 : wf (inl T6) body = true).
+    { rewrite (inl_eq T6 st CL). simpl in Hw. apply andb_true_iff in Hw. destruct Hw as [Hw' _].
+      apply andb_true_iff in Hw'. tauto. }
+    assert (K6 : Kexc g (excs T6) sg) by (rewrite CE; exact PE).
+    destruct (IH T6 g tr_I6 Hw6 tr_E7v A6 K6) as [J1 P7]. fold T7v in P7.
+    pose proof P7 as [K7 _]. rewrite CE in K7. simpl in K7.
+    split; auto. split; auto. split; auto. apply tr_outer; auto.
+  Qed.
+
+  Lemma tr_norm t1 s1 : hasel = false -> sim_stmt body sg t1 ONorm s1 ->
+    Forall (justified g) t1 /\ post g st (visit true (Try body hasel el hs) st) ONorm s1.
+  Proof.
+    intros Hh IH. destruct (tr_body t1 ONorm s1 IH) as (J1 & [_ A7] & PE & KO).
+    split; auto. split; auto. rewrite tr_final.
+    destruct A7 as (b & Hc & HP). pose proof tr_E8 as E8. unfold T8 in E8.
+    change (cur T7) with (cur T7v) in E8. rewrite Hc, Hh in E8.
+    assert (A7' : at_cur g T7 s1) by (exists b; split; auto).
+    destruct (link_cur_sound g T7 TN s1 E8 A7') as [PN HPn].
+    apply cip_sound; auto; [apply tr_lenN|]. eapply hp_mono; [apply tr_incl_8F|].
+    unfold T8. change (cur T7) with (cur T7v). rewrite Hc, Hh. exact HPn.
+  Qed.
+
+  Lemma tr_else t1 s1 t2 o s2 : hasel = true -> sim_stmt body sg t1 ONorm s1 -> sim_stmt el s1 t2 o s2 ->
+    Forall (justified g) (t1 ++ t2) /\ post g st (visit true (Try body hasel el hs) st) o s2.
+  Proof.
+    intros Hh IHb IHe. destruct (tr_body t1 ONorm s1 IHb) as (J1 & [_ A7] & PE & KO).
+    destruct A7 as (b & Hc & HP). pose proof tr_E8 as E8. unfold T8 in E8.
+    change (cur T7) with (cur T7v) in E8. rewrite Hc, Hh in E8.
+    assert (A7' : at_cur g T7 s1) by (exists b; split; auto).
+    set (Y := nextblock T7) in *.
+    assert (RY : R 0 T7 Y) by (apply R_nextblock, R0, tr_I7).
+    assert (RV1 : R 0 Y (visit true el Y)) by (apply visit_R00, (R_inv _ _ _ RY)).
+    assert (RL : R 0 (visit true el Y) (link_cur TN (visit true el Y))) by (apply R_link_cur, R0, (R_inv _ _ _ RV1)).
+    assert (EV : ext (visit true el Y) g) by (eapply ext_back; eauto).
+    assert (EY : ext Y g) by (eapply ext_back; eauto).
+    assert (AY : at_cur g Y s1) by (apply at_cur_nextblock; auto; apply tr_I7).
+    assert (CY : ceq st Y) by (unfold Y; ceq_auto; apply tr_ceq7).
+    destruct CY as [CL CE].
+    assert (HwY : wf (inl Y) el = true).
+    { rewrite (inl_eq Y st CL). simpl in Hw. apply andb_true_iff in Hw. destruct Hw as [Hw' _].
+      apply andb_true_iff in Hw'. tauto. }
+    assert (KY : Kexc g (excs Y) s1) by (rewrite CE; exact KO).
+    destruct (IHe Y g (R_inv _ _ _ RY) HwY EV AY KY) as [J2 PV].
+    split; [apply Forall_app; auto|].
+    apply (post_ctx g st Y) in PV; auto. rewrite tr_final.
+    assert (E8eq : T8 = link_cur TN (visit true el Y)).
+    { unfold T8. change (cur T7) with (cur T7v). rewrite Hc, Hh. reflexivity. }
+    destruct o.
+    - destruct PV as [KV AV]. destruct (link_cur_sound g _ TN s2 E8 AV) as [PN HPn].
+      split; auto. apply cip_sound; auto; [apply tr_lenN|]. eapply hp_mono; [apply tr_incl_8F|].
+      rewrite E8eq. exact HPn.
+    - eapply post_mono; [|discriminate|exact PV]. eapply incl_tran; [|apply tr_incl_8F]. rewrite E8eq.
+      apply ext_edges, (R_ext _ _ _ RL).
+    - eapply post_mono; [|discriminate|exact PV]. eapply incl_tran; [|apply tr_incl_8F]. rewrite E8eq.
+      apply ext_edges, (R_ext _ _ _ RL).
+    - eapply post_mono; [|discriminate|exact PV]. eapply incl_tran; [|apply tr_incl_8F]. rewrite E8eq.
+      apply ext_edges, (R_ext _ _ _ RL).
+    - eapply post_mono; [|discriminate|exact PV]. eapply incl_tran; [|apply tr_incl_8F]. rewrite E8eq.
+      apply ext_edges, (R_ext _ _ _ RL).
+  Qed.
+
+  Lemma tr_incl_7F : incl (eds T7v) (eds T10).
+  Proof. eapply incl_tran; [|apply tr_incl_8F]. change (incl (eds T7) (eds T8)). apply ext_edges, (R_ext 0), tr_R78. lia. Qed.
+
+  Lemma tr_prop t1 o s1 : o = OBrk \/ o = OCont \/ o = ORet -> sim_stmt body sg t1 o s1 ->
+    Forall (justified g) t1 /\ post g st (visit true (Try body hasel el hs) st) o s1.
+  Proof.
+    intros Ho IH. destruct (tr_body t1 o s1 IH) as (J1 & [_ P7] & PE & KO). split; auto.
+    rewrite tr_final. destruct tr_ceq6 as [CL CE]. split; auto.
+    destruct Ho as [->|[->|->]].
+    - rewrite CL in P7. destruct (loops st); auto. eapply chain_impl; [|exact P7].
+      intros s [A B']. split; auto. eapply hp_mono; [apply tr_incl_7F|exact B'].
+    - rewrite CL in P7. exact P7.
+    - rewrite CE in P7. exact P7.
+  Qed.
+
+  Lemma tr_exc t1 s1 t2 o s2 : sim_stmt body sg t1 OExc s1 -> sim_h hs s1 t2 o s2 ->
+    Forall (justified g) (t1 ++ t2) /\ post g st (visit true (Try body hasel el hs) st) o s2.
+  Proof.
+    intros IHb IHh. destruct (tr_body t1 OExc s1 IHb) as (J1 & _ & PE & KO).
+    destruct tr_ceq8 as [CL CE].
+    assert (Hw8 : wf_h (inl T8) hs = true).
+    { rewrite (inl_eq T8 st CL). simpl in Hw. apply andb_true_iff in Hw. tauto. }
+    assert (K8 : Kexc g (excs T8) s1) by (rewrite CE; exact KO).
+    destruct (IHh T8 g TN TE tr_I8 Hw8 tr_TE_lt tr_lenE tr_E9 PE K8) as [J2 Q]. fold T9r in Q.
+    split; [apply Forall_app; auto|]. rewrite tr_final.
+    assert (Hincl : incl (eds (snd T9r)) (eds T10)) by (apply ext_edges, (R_ext 0), tr_R910; lia).
+    unfold posth in Q. destruct o.
+    - destruct Q as (KQ & PN & HPn). rewrite CE in KQ. split; auto.
+      apply cip_sound; auto; [apply tr_lenN|]. eapply hp_mono; [exact Hincl|exact HPn].
+    - apply (post_ctx g st T8) in Q; auto. eapply post_mono; [exact Hincl|discriminate|exact Q].
+    - apply (post_ctx g st T8) in Q; auto. eapply post_mono; [exact Hincl|discriminate|exact Q].
+    - apply (post_ctx g st T8) in Q; auto. eapply post_mono; [exact Hincl|discriminate|exact Q].
+    - apply (post_ctx g st T8) in Q; auto. eapply post_mono; [exact Hincl|discriminate|exact Q].
+  Qed.
+End TryCase.
+
+Lemma sim_try_norm body el hs sg t1 s1 : sim_stmt body sg t1 ONorm s1 ->
+  sim_stmt (Try body false el hs) sg t1 ONorm s1.
+Proof. intros IH st g Hi Hw He HA HK. eapply tr_norm; eauto. Qed.
+Lemma sim_try_else body el hs sg t1 s1 t2 o s2 : sim_stmt body sg t1 ONorm s1 -> sim_stmt el s1 t2 o s2 ->
+  sim_stmt (Try body true el hs) sg (t1 ++ t2) o s2.
+Proof. intros IHb IHe st g Hi Hw He HA HK. eapply tr_else; eauto. Qed.
+Lemma sim_try_exc body h el hs sg t1 s1 t2 o s2 : sim_stmt body sg t1 OExc s1 -> sim_h hs s1 t2 o s2 ->
+  sim_stmt (Try body h el hs) sg (t1 ++ t2) o s2.
+Proof. intros IHb IHh st g Hi Hw He HA HK. eapply tr_exc; eauto. Qed.
+Lemma sim_try_prop body h el hs sg t1 o s1 : o = OBrk \/ o = OCont \/ o = ORet -> sim_stmt body sg t1 o s1 ->
+  sim_stmt (Try body h el hs) sg t1 o s1.
+Proof. intros Ho IH st g Hi Hw He HA HK. eapply tr_prop; eauto. Qed.
